@@ -11,6 +11,8 @@ spaces / configurations / steps in ℤ / histories; none is proved by enumeratio
 -/
 import Model.Catalog
 import Proofs.Catalog
+import Model.CatalogBuild
+import Proofs.CatalogBuild
 
 open Cat
 
@@ -360,5 +362,218 @@ example : (runEvents sp₀ St.init
 
 example : SelOK (nm "β_coût", nm "b10") := by
   unfold SelOK NameOK; decide
+
+/-! ### round 3: construction of catalogs, chosen subsets of configurations, rewriting through catalogs -/
+
+/-- **Construction**: every catalog of a formula the constructors accept, at any depth, has a
+legal name, at least one member, and — when it was handed a controller object the user declared —
+lists exactly the specification names of that controller, the same names *in the same order*
+(`Catalog.__init__`: `names != controller_names` → "Incompatible IDs"). -/
+theorem accepted_catalog_matches_controller (decl : List Controller) (e : Expr)
+    (h : e.build decl = .ok ()) :
+    ∀ x ∈ e.cats, nameOK x.1 = true ∧ x.2.2.names ≠ [] ∧
+      ∀ ctrl, findCtrl decl x.2.1 = some ctrl → x.2.2.names = ctrl.specs := by
+  intro x hx
+  have hm := Expr.build_cats decl e h x hx
+  exact ⟨(mkCatalog_basic hm).1, (mkCatalog_basic hm).2, fun ctrl hf => mkCatalog_declared hm hf⟩
+
+/-- … conversely a formula in which some catalog (at any depth, selected or not) lists anything
+else than the tuple of names of the controller it is handed — other names, fewer or more names,
+or the same names in another order — is refused: no central controller is ever made for it. -/
+theorem mismatched_catalog_refused (decl : List Controller) (e : Expr) (x : Name × Name × Members)
+    (hx : x ∈ e.cats) (ctrl : Controller) (hf : findCtrl decl x.2.1 = some ctrl)
+    (hne : x.2.2.names ≠ ctrl.specs) :
+    e.build decl ≠ .ok () ∧ ∀ sp, construct decl e ≠ .ok sp := by
+  have hb : e.build decl ≠ .ok () :=
+    fun h => hne ((accepted_catalog_matches_controller decl e h x hx).2.2 ctrl hf)
+  exact ⟨hb, fun sp h => hb (construct_ok h).1⟩
+
+/-- The order test is necessary because the selection is positional: a catalog listing the names
+of its controller in another order would show, at the controller's index of `log`, the member
+named `sq`; the constructor refuses it. -/
+theorem order_check_necessary :
+    ∃ (names specs : List Name) (i : Nat), names.Perm specs ∧ i < specs.length ∧
+      specs.getD i [] = nm "log" ∧ names.getD i [] = nm "sq" ∧
+      mkCatalog [⟨nm "k", specs⟩] (nm "y") (nm "k") names = .error .incompatible :=
+  ⟨[nm "log", nm "sq", nm "lin"], [nm "lin", nm "log", nm "sq"], 1,
+    by decide, by decide, by decide, by decide, by decide⟩
+
+/-- **Synchronisation with the controller object**: in a formula built with declared controllers,
+after `configure_catalogs(cfg)` every catalog handed the controller `ctrl` shows (positionally, as
+`Catalog.selected_name` does) the alternative the configuration names for `ctrl`, which is the
+name the controller object itself reports at its current index (`Controller.current_name`). -/
+theorem declared_controller_sync (decl : List Controller) (e : Expr) (sp : Space)
+    (hc : construct decl e = .ok sp) (cfg : Config) (hv : ValidCfg sp cfg) (st₀ st : St)
+    (hs : setConfiguration sp st₀ cfg = .ok st) :
+    ∀ x ∈ e.cats, ∀ ctrl, findCtrl decl x.2.1 = some ctrl →
+      getSelection cfg x.2.1 = some (shownName st x.2.1 x.2.2.names) ∧
+      shownName st x.2.1 x.2.2.names = ctrl.specs.getD (st x.2.1) [] ∧
+      st x.2.1 < ctrl.specs.length := by
+  intro x hx ctrl hf
+  obtain ⟨hb, hcen⟩ := construct_ok hc
+  have hn := (accepted_catalog_matches_controller decl e hb x hx).2.2 ctrl hf
+  obtain ⟨h1, h2⟩ := select_sync e sp hcen cfg hv st₀ st hs x hx
+  refine ⟨h2, ?_, ?_⟩
+  · unfold shownName; rw [hn]
+  · rw [← hn]; exact h1
+
+/-- **Iteration over chosen configurations** (`SelectedExpressionsIterator(expression, chosen)`,
+the loop of `BIOGEME.estimate_catalog(selected_configurations=chosen)`): from any state of the
+controllers, the iterator over any list of enumerated configurations visits exactly that list. -/
+theorem iteration_visits_selected (sp : Space) (hwf : SpaceWF sp) (L : List Config)
+    (h : allConfigurations sp = .ok L) (chosen : List Config) (hsub : ∀ c ∈ chosen, c ∈ L)
+    (st : St) : iterVisited sp st chosen = .ok chosen := by
+  apply iterVisited_valid hwf
+  intro cfg hc
+  exact ((complete sp hwf L h).1 cfg).mp (hsub cfg hc)
+
+/-- **Rewriting through catalogs** (`rename_elementary`, `fix_betas`, `change_init_values` of
+`MultipleExpression`: handed to the selected member): the formula selected after the rewriting is
+the rewritten selected formula; the space of configurations is untouched. -/
+theorem delegated_rewrite_commutes (e : Expr) (st : St) (f : LeafMap) :
+    (e.mapSel st f).select st = (e.select st).map (Expr.mapPlain f) ∧
+      central (e.mapSel st f) = central e := by
+  refine ⟨Expr.mapSel_select st f e, ?_⟩
+  unfold central
+  rw [Expr.mapSel_ctrls]
+
+/-- … so after `configure_catalogs(cfg)` the rewriting applied through the catalogs gives the
+rewriting applied to the formula written out by hand. -/
+theorem delegated_rewrite_equals_handwritten (e : Expr) (sp : Space) (hc : central e = .ok sp)
+    (cfg : Config) (hv : ValidCfg sp cfg) (st₀ st : St)
+    (hs : setConfiguration sp st₀ cfg = .ok st) (f : LeafMap) :
+    ∃ e', e.hand cfg = some e' ∧ (e.mapSel st f).select st = some (e'.mapPlain f) := by
+  obtain ⟨e', h1, h2, _⟩ := select_equals_handwritten e sp hc cfg hv st₀ st hs
+  exact ⟨e', h1, by rw [(delegated_rewrite_commutes e st f).1, h2]; rfl⟩
+
+/-- … and it is local: a member that is not the selected one is stored unchanged (it shows its
+old leaves when a later configuration selects it). -/
+theorem delegated_rewrite_local (st : St) (f : LeafMap) (ms : Members) (k k' : Nat) (h : k' ≠ k) :
+    (ms.mapNth st f k).nth k' = ms.nth k' :=
+  Members.mapNth_other st f ms k k' h
+
+/-- **`estimate_catalog` over all configurations**: for an accepted formula with at most `maxN`
+configurations, from any state of the controllers, the loop raises nothing and returns one entry
+per enumerated configuration, in the order of the enumeration: under the identifier of each
+configuration, the formula written out by hand for it.  The identifiers are pairwise different, so
+the dict the code fills has exactly Π |specifications| keys. -/
+theorem estimate_catalog_all (e : Expr) (sp : Space) (hc : central e = .ok sp) (maxN : Nat)
+    (hcap : numberOfConfigurations sp ≤ maxN) (st : St) :
+    estimateCatalog e maxN none st =
+        .ok ((allCfgs sp).map fun cfg => (stringId cfg, e.hand cfg)) ∧
+      ((allCfgs sp).map stringId).Nodup ∧
+      ((allCfgs sp).map stringId).length = prodNat (sp.map Controller.size) := by
+  obtain ⟨hwf, hok⟩ := central_ok hc
+  have hset : setOfConfigurations sp maxN = .ok (some (allCfgs sp)) := by
+    rw [cap sp hwf maxN, if_neg (Nat.not_lt.mpr hcap)]
+  refine ⟨?_, ?_, by rw [List.length_map, allCfgs_length]⟩
+  · unfold estimateCatalog
+    simp only [hc, hset]
+    exact estimateLoop_valid hwf e hok _
+      (fun L hL cfg hv => by cases hL; exact (mem_allCfgs sp cfg).mpr hv) (allCfgs sp) st
+      (fun cfg hm => (mem_allCfgs sp cfg).mp hm)
+  · refine nodup_map_on stringId _ ?_ (allCfgs_nodup hwf)
+    intro x hx y hy hxy
+    exact stringId_inj_valid hwf ((mem_allCfgs sp x).mp hx) ((mem_allCfgs sp y).mp hy) hxy
+
+/-- **`estimate_catalog(selected_configurations=chosen)`**: for any list of valid configurations
+(below or above the cap), from any state, one entry per chosen configuration: its identifier and
+the formula written out by hand for it. -/
+theorem estimate_catalog_selected (e : Expr) (sp : Space) (hc : central e = .ok sp) (maxN : Nat)
+    (chosen : List Config) (hv : ∀ cfg ∈ chosen, ValidCfg sp cfg) (st : St) :
+    estimateCatalog e maxN (some chosen) st =
+      .ok (chosen.map fun cfg => (stringId cfg, e.hand cfg)) := by
+  obtain ⟨hwf, hok⟩ := central_ok hc
+  unfold estimateCatalog
+  simp only [hc, cap sp hwf maxN]
+  apply estimateLoop_valid hwf e hok _ _ chosen st hv
+  intro L hL cfg hcfg
+  split at hL
+  · cases hL
+  · cases hL
+    exact (mem_allCfgs sp cfg).mpr hcfg
+
+/-- above the cap, `estimate_catalog` without a selection is refused -/
+theorem estimate_catalog_too_many (e : Expr) (sp : Space) (hc : central e = .ok sp) (maxN : Nat)
+    (hcap : numberOfConfigurations sp > maxN) (st : St) :
+    estimateCatalog e maxN none st = .error .tooMany := by
+  obtain ⟨hwf, _⟩ := central_ok hc
+  unfold estimateCatalog
+  simp only [hc, cap sp hwf maxN, if_pos hcap]
+
+/-- **A formula used inside a bigger formula** (repaired behaviour, finding FC16f): the space of a
+formula is computed from its own catalogs.  When `a` is part of `big` (all its catalogs are catalogs
+of `big`), every controller of `a` is a controller of `big` with the same alternatives, every valid
+configuration of `big`, read on the controllers of `a`, is a valid configuration of `a`, and the
+hand-written form of `a` under the configuration of `big` is its hand-written form under that
+restricted configuration: configuring the bigger formula configures the embedded one consistently,
+and what `a` enumerates on its own (`count`, `nodup`, `complete` for `spa`) is unaffected. -/
+theorem embedded_formula (big a : Expr) (hsub : ∀ c ∈ a.ctrls, c ∈ big.ctrls) (sp spa : Space)
+    (hb : central big = .ok sp) (ha : central a = .ok spa) :
+    (∀ c ∈ spa, c ∈ sp) ∧
+      ∀ cfg, ValidCfg sp cfg →
+        ValidCfg spa (restrictCfg spa cfg) ∧ a.hand cfg = a.hand (restrictCfg spa cfg) := by
+  obtain ⟨hwf, _⟩ := central_ok hb
+  obtain ⟨hwfa, hoka⟩ := central_ok ha
+  have hincl : ∀ c ∈ spa, c ∈ sp :=
+    fun c hc => (central_mem hb c).mpr (hsub c ((central_mem ha c).mp hc))
+  refine ⟨hincl, fun cfg hv => ⟨restrictCfg_valid_aux sp cfg (names_nodup hwf.sorted) hv spa hincl, ?_⟩⟩
+  apply Expr.hand_congr
+  intro x hx
+  have hf := Expr.cats_ok spa a hoka x hx
+  have hmem := (findCtrl_some spa _ _ hf).1
+  have h1 := getSelection_restrict spa cfg _ hmem (names_nodup hwfa.sorted)
+  obtain ⟨v, _, h2⟩ := validCfg_selection sp cfg (names_nodup hwf.sorted) hv _ (hincl _ hmem)
+  simp only at h1 h2
+  rw [h1, h2]
+  rfl
+
+/-- the operands of a binary operator and of a unary minus are such parts -/
+theorem embedded_operands (op : BinOp) (a b : Expr) :
+    (∀ c ∈ a.ctrls, c ∈ (Expr.bin op a b).ctrls) ∧ (∀ c ∈ b.ctrls, c ∈ (Expr.bin op a b).ctrls) ∧
+      (∀ c ∈ a.ctrls, c ∈ (Expr.neg a).ctrls) := by
+  refine ⟨fun c hc => ?_, fun c hc => ?_, fun c hc => ?_⟩
+  · simp only [Expr.ctrls, List.mem_append]; exact Or.inl hc
+  · simp only [Expr.ctrls, List.mem_append]; exact Or.inr hc
+  · simpa [Expr.ctrls] using hc
+
+/-! non-vacuity of the round-3 statements -/
+
+def decl₀ : List Controller := [⟨nm "k", [nm "lin", nm "quad"]⟩]
+
+example : construct decl₀ e₀ = .ok sp₀ := by decide
+
+example : e₀.build decl₀ = .ok () := by decide
+
+/-- the same formula with the second catalog listing (quad, lin) is refused -/
+example : (Expr.bin .plus (.cat (nm "c1") (nm "k") (.cons (nm "lin") (.num 1) (.cons (nm "quad") (.num 2) .nil)))
+    (.cat (nm "c2") (nm "k") (.cons (nm "quad") (.num 9) (.cons (nm "lin") (.var (nm "y")) .nil)))).build decl₀
+    = .error .incompatible := by decide
+
+/-- iterating over two chosen configurations, starting from another state -/
+example : iterVisited sp₀ (St.init.set (nm "k") 1)
+      [[(nm "c3", nm "v"), (nm "k", nm "lin")], [(nm "c3", nm "u"), (nm "k", nm "quad")]]
+    = .ok [[(nm "c3", nm "v"), (nm "k", nm "lin")], [(nm "c3", nm "u"), (nm "k", nm "quad")]] := by
+  decide
+
+example : (estimateCatalog e₀ 100 (some [[(nm "c3", nm "v"), (nm "k", nm "quad")]]) St.init).map
+    (fun r => r.map fun x => (String.ofList x.1, x.2.map Expr.render))
+    = .ok [("c3:v;k:quad", some "Plus(Numeric(7),Numeric(9))")] := by decide
+
+example : (estimateCatalog e₀ 100 none St.init).map List.length = .ok 4 := by decide
+
+example : (estimateCatalog e₀ 3 none St.init).map List.length = .error .tooMany := by decide
+
+/-- the left operand of `e₀` on its own: two controllers as well (c3 and the shared k), four configurations;
+the right operand on its own: one controller, two configurations -/
+example : (match e₀ with | .bin _ a b => ((central a).map (fun sp => numberOfConfigurations sp),
+    (central b).map (fun sp => numberOfConfigurations sp)) | _ => (.ok 0, .ok 0)) = (.ok 4, .ok 2) := by decide
+
+example : restrictCfg [⟨nm "k", [nm "lin", nm "quad"]⟩] [(nm "c3", nm "v"), (nm "k", nm "quad")]
+    = [(nm "k", nm "quad")] := by decide
+
+/-- renaming `b1` and `x` through the catalogs while (c3:u, k:lin) is selected -/
+example : ((e₀.mapSel St.init (renameMap [nm "b1", nm "x"] (some (nm "p_")) none)).select St.init).map Expr.render
+    = some "Plus(Plus(Times(Beta(p_b1),Variable(p_x)),Numeric(1)),Variable(y))" := by decide
 
 end C16
